@@ -8,7 +8,7 @@ SPEC = {
     'closure_dirs': ['theories/C09', 'theories/Gen/Consts.v', 'theories/Base/Outcome.v'],
     'harness': 'c09',
     'args': {
-        'quick': ['-num', 900, '-raw', 300, '-fast', 300, '-str', 900, '-enc', 300, '-doc', 400],
+        'quick': ['-num', 700, '-raw', 250, '-fast', 250, '-str', 800, '-enc', 250, '-doc', 300],
         'thorough': ['-num', 12000, '-raw', 4000, '-fast', 4000, '-str', 12000, '-enc', 4000, '-doc', 20000],
     },
     'search_args': ['-num', 6000, '-raw', 2000, '-fast', 2000, '-str', 6000, '-enc', 2000, '-doc', 6000],
